@@ -54,12 +54,13 @@ NoMsg == [id |-> 0, len |-> 0, off |-> 0]
 \*                                                                 late = delivered after the connection had stopped]
 \* rstop     "" running, else the first error the receiver stopped with (stopForError): "cap" capacity exceeded,
 \*           "chan" unknown channel, "err" malformed / over-long / empty packet or read error
+\* sclosed   the sender has closed the connection gracefully (FlushStop)
 \* rhalt     the receive loop has really been left (always together with rstop unless DrainAfter says otherwise)
 \* sent[c]   ghost: messages accepted by Send, in order   nid      next message id
 \* lost      ghost: ids of messages dropped by the EmptyLoss deviation
 Empty == [sendq  |-> [c \in Ch |-> <<>>], snd |-> [c \in Ch |-> NoMsg], recent |-> [c \in Ch |-> 0],
           obuf   |-> <<>>, wire |-> <<>>, rbuf |-> <<>>, rcv |-> [c \in Ch |-> <<>>], dlv |-> [c \in Ch |-> <<>>],
-          rstop  |-> "", rhalt |-> FALSE,
+          rstop  |-> "", rhalt |-> FALSE, sclosed |-> FALSE, draining |-> FALSE, drained |-> 0,
           sent   |-> [c \in Ch |-> <<>>], nid |-> 1, lost |-> {}]
 
 \* ---- wire size of a packet (protoio delimited kp2p.Packet{PacketMsg}), needed for recentlySent ----
@@ -71,7 +72,8 @@ PacketSize(chid, eof, n) == LET i == PacketMsgSize(chid, eof, n)  p == 1 + i + S
 \* ---- sender ---------------------------------------------------------------------------------------
 \* TrySend: false when the queue is full.  (Send blocks up to 10 s instead; the drivers use TrySend.)
 SendOp(m, c, n) ==
-  IF Len(m.sendq[c]) >= QCap[c] THEN [st |-> m, res |-> "full"]
+  IF m.sclosed \/ m.draining THEN [st |-> m, res |-> "closed"]                       \* not running any more: Send / TrySend return false
+  ELSE IF Len(m.sendq[c]) >= QCap[c] THEN [st |-> m, res |-> "full"]
   ELSE LET msg == [id |-> m.nid, len |-> n] IN
        [st  |-> [m EXCEPT !.sendq[c] = Append(@, msg), !.sent[c] = Append(@, msg), !.nid = @ + 1],
         res |-> "ok"]
@@ -136,6 +138,19 @@ SendPacketOp(m, c) == LET r == SendPacketCore(m, c) IN
 \* per frame, so the receiver regularly has SEVERAL packets in its read buffer at once.
 FlushOp(m) == IF m.obuf = <<>> THEN m ELSE [m EXCEPT !.wire = Append(@, m.obuf), !.obuf = <<>>]
 LastPacket(m) == m.obuf[Len(m.obuf)]
+
+(* MConnection.FlushStop, the graceful close: the send routine is stopped first, then EVERYTHING that Send / TrySend *)
+(* accepted before is packetised in the usual channel-scheduling order (sendSomePacketMsgs until it reports that    *)
+(* nothing is pending), flushed, and only then the connection is closed; afterwards sends are refused.  The         *)
+(* receiver therefore gets every accepted message completely before it sees the end of the connection.              *)
+(* limit = 0 is that.  limit = k > 0 is the mistake of draining only once (one sendSomePacketMsgs = at most          *)
+(* numBatchPacketMsgs = 10 packets): the tail of a longer message and whatever waits on other channels is never      *)
+(* transmitted although Send returned true (MC_MConn requires the counterexample to AllDelivered).                   *)
+\* (three steps, so that a model can take the drain one packet at a time)
+FlushStopBegin(m)   == [m EXCEPT !.draining = TRUE, !.drained = 0]
+CanDrain(m, limit)  == m.draining /\ AnyPending(m) /\ (limit = 0 \/ m.drained < limit)
+DrainStep(m)        == [SendPacketOp(m, LeastRatio(m)).st EXCEPT !.drained = @ + 1]
+FlushStopEnd(m)     == [FlushOp(m) EXCEPT !.sclosed = TRUE, !.draining = FALSE]
 
 \* something other than a PacketMsg of ours gets into the stream (a peer with another channel set, a broken or
 \* hostile peer, the connection itself):
@@ -213,7 +228,8 @@ DeliveredIsSent(m) == \A c \in Ch :
       /\ \A i \in 1..Len(m.dlv[c]) : Intact(m, c, m.dlv[c][i])
       /\ \A a, b \in 1..Len(m.dlv[c]) : (a # b) => (m.dlv[c][a].id # m.dlv[c][b].id)
 \* when everything has been sent, flushed and read and the connection is alive, everything was delivered
-Quiescent(m)    == ~AnyPending(m) /\ m.obuf = <<>> /\ ~CanRecv(m)
+\* (after a graceful close nothing more will ever be sent, pending or not)
+Quiescent(m)    == (~AnyPending(m) \/ m.sclosed) /\ m.obuf = <<>> /\ ~CanRecv(m)
 AllDelivered(m) == (Quiescent(m) /\ m.rstop = "") => \A c \in Ch : Ids(m.dlv[c]) = Ids(m.sent[c])
 \* the named deviation: a message is lost
 EmptyLost(m) == m.lost # {}
